@@ -166,6 +166,15 @@ func main() {
 		if h%10 == 9 {
 			write()
 		}
+		stuck := false
+		for _, v := range res.Viol {
+			if v.Check == "deadlock" {
+				stuck = true // the handlers of that instance hold its lock for ever; every further history would only wait again
+			}
+		}
+		if stuck {
+			break
+		}
 	}
 	for p, m := range seenSet {
 		for x := range m {
